@@ -51,7 +51,7 @@ func genC06(t *rapid.T) c06Case {
 			}
 			v := core.GenStructVal(t, cfg, s)
 			st.S = s
-			st.Msg, _ = genWireMsg(t, s, v, wireEditCfg{Shuffle: true, Insert: true, MaxInsert: 2})
+			st.Msg, _ = genWireMsg(t, s, v, wireEditCfg{Shuffle: true, Insert: true, Dup: true, MaxInsert: 2})
 		}
 		c.Steps = append(c.Steps, st)
 	}
@@ -237,15 +237,19 @@ func runC06(w *worker) func(c c06Case) *Failure {
 				if f != nil {
 					return f
 				}
-				if verdict.Kind != core.VOK || verdict.GrayValue {
+				if verdict.Kind != core.VOK {
 					continue
 				}
 				if err != nil || n != verdict.N {
 					return failf("wellformed-rejected", "step %d: n=%d want %d err=%v", i, n, verdict.N, err)
 				}
 				o.snap = o.b.Lift(o.dest.Elem())
-				if m := core.EqualStruct(st.S, o.snap, exp, core.EqOpts{}, "$"); m != nil {
-					return failf("decoded-value-differs", "step %d: %s", i, m)
+				// a value the properties leave open (e.g. a field sent twice with different contents) is
+				// not compared with the model's, but the memory it lives in is held to the same rules
+				if !verdict.GrayValue {
+					if m := core.EqualStruct(st.S, o.snap, exp, core.EqOpts{}, "$"); m != nil {
+						return failf("decoded-value-differs", "step %d: %s", i, m)
+					}
 				}
 				collectExtents(st.S, o.dest.Elem(), "$", &o.ext)
 				inLo := uintptr(unsafe.Pointer(unsafe.SliceData(block)))
